@@ -112,7 +112,8 @@ def run_tlc(workdir, module, cfg=None, workers=None, timeout=1200, extra=(), env
         cmd += ["-coverage", "1"]
     cmd += list(extra) + [module]
     e = dict(os.environ)
-    jto = []
+    # a fixed heap per JVM (the default, a quarter of the machine per JVM, lets a dozen concurrent trace validations exhaust the memory)
+    jto = ["-Xmx%s" % os.environ.get("VERIF_TLC_HEAP", "8g" if (workers or NCPU) >= 8 else "4g" if (workers or NCPU) > 1 else "3g")]
     if xss:
         jto.append("-Xss%s" % xss)
     if env:
@@ -302,6 +303,7 @@ def validate_batch(modules, root, records, timeout=1200, chunks=None, ndjson=Fal
     if os.environ.get("VERIF_NEGATIVE_CONTROL"):
         records = corrupt_one(records, int(os.environ["VERIF_NEGATIVE_CONTROL"] or 1))
     chunks = chunks or min(NCPU, max(1, len(records) // 200))
+    parallel = min(chunks, int(os.environ.get("VERIF_TLC_PARALLEL", "8")))  # JVMs at a time (3 GB each at most)
     parts = [records[k::chunks] for k in range(chunks)]
 
     def one(part):
@@ -333,7 +335,7 @@ def validate_batch(modules, root, records, timeout=1200, chunks=None, ndjson=Fal
         shutil.rmtree(d, ignore_errors=True)
         return bad, r.distinct
 
-    with ThreadPoolExecutor(chunks) as ex:
+    with ThreadPoolExecutor(parallel) as ex:
         res = list(ex.map(one, parts))
     return [b for bad, _ in res for b in bad], sum(n for _, n in res)
 
